@@ -905,3 +905,27 @@ Definition holds_registry (ops : list reg_op) (c : callable) (obs_native obs_sam
   | Some true => obs_native && obs_same
   | _ => negb obs_native && negb obs_same
   end.
+
+(* ---- sessions on ONE adapter instance ----
+   After the history ops (register / unregister calls made so far in the session), adapt_func
+   (adapting = true) or restore_func (adapting = false) of q was taken from the same adapter and
+   the outcome was called with one graph: an internal graph for adapt_func, a domain graph for
+   restore_func.  Observed: is_native(q), "the outcome is q itself", "the function saw a domain
+   graph".  Nothing may be remembered from earlier steps of the session. *)
+Definition expect_recv_dom (fl : flags) (adapting : bool) (q : callable) : bool :=
+  if adapting then negb (is_native fl q) else false.
+
+Definition agree_session (ops : list reg_op) (adapting : bool) (q : callable) (n s recv_dom : bool) : bool :=
+  Bool.eqb (is_native (run_ops ops) q) n &&
+  Bool.eqb (if adapting then adapted_is_same (adapt_func (run_ops ops) q) else false) s &&
+  Bool.eqb (expect_recv_dom (run_ops ops) adapting q) recv_dom.
+
+(* by the history alone: registered (last operation on the underlying function is a
+   registration) -> native, returned as is, called with the internal graph untouched; otherwise
+   wrapped and called with the restored domain graph; restore_func always wraps and hands the
+   function an internal graph *)
+Definition holds_session (ops : list reg_op) (adapting : bool) (q : callable) (n s recv_dom : bool) : bool :=
+  let reg := match last_op_on (underlying q) ops None with Some true => true | _ => false end in
+  Bool.eqb reg n &&
+  (if adapting then Bool.eqb reg s && Bool.eqb (negb reg) recv_dom else negb s && negb recv_dom).
+
